@@ -10,6 +10,17 @@ def parseFV (s : String) : Option FV :=
   else if s == "b0" then some (.bool false)
   else if s.startsWith "i" then (s.drop 1).toString.toInt?.map .int
   else if s.startsWith "f" then (s.drop 1).toString.toInt?.map .flt
+  else if s.startsWith "as" then
+    let body := (s.drop 2).toString
+    if body == "" then some (.arrStr []) else
+    ((body.splitOn ",").mapM (fun (t : String) => Bytes.ofHex (if t == "" then "-" else t))).map .arrStr
+  else if s.startsWith "ai" then
+    let body := (s.drop 2).toString
+    if body == "" then some (.arrInt []) else ((body.splitOn ",").mapM (fun (t : String) => t.toInt?)).map .arrInt
+  else if s.startsWith "ab" then
+    let body := (s.drop 2).toString
+    if body == "" then some (.arrBool []) else some (.arrBool ((body.splitOn ",").map (fun (t : String) => t == "1")))
+  else if s.startsWith "oi" then (s.drop 2).toString.toNat?.map .optArr
   else if s.startsWith "s" then (Bytes.ofHex (if (s.drop 1).toString == "" then "-" else (s.drop 1).toString)).map .str
   else none
 
